@@ -51,6 +51,7 @@ pub tracked struct Written { pub ghost frames: Seq<Event> }
 
 pub struct PathBuf { pub filler: u8 }
 impl PathBuf {
+    #[verifier::external_body] pub fn exists(&self) -> bool { unimplemented!() }
     #[verifier::external_body] pub fn parent(&self) -> Option<&PathBuf> { unimplemented!() }
     #[verifier::external_body] pub fn with_extension(&self, e: &str) -> PathBuf { unimplemented!() }
 }
@@ -93,6 +94,9 @@ impl SidecarIndexBuilderV1 {
 }
 #[verifier::external_body] pub fn rebuild_message_index_from_sidecar_v1(sidecar: &PathBuf, idx: &PathBuf) -> Result<(), IoError> { unimplemented!() }
 #[verifier::external_body] pub fn rebuild_message_ordinal_index_from_events_v1(p: &PathBuf, id: &str, events: &[Event]) -> Result<(), IoError> { unimplemented!() }
+#[verifier::external_body] pub fn rebuild_compaction_checkpoint_index_from_sidecar_v1(sidecar: &PathBuf, idx: &PathBuf, id: &str) -> (r: IoResult<()>)
+    requires *sidecar == ContinuityStreamCache::file_of(id@, 2) && *idx == ContinuityStreamCache::file_of(id@, 3),      // [ensure.the_checkpoint_index_is_rebuilt_from_this_threads_checkpoint_sidecar]
+{ unimplemented!() }
 #[verifier::external_body] pub fn rebuild_compaction_checkpoint_index_from_events_v1(p: &PathBuf, id: &str, events: &[Event]) -> Result<(), IoError> { unimplemented!() }
 
 // ---- the two rebuilds that read the FULL sidecar file back (lazy rebuild of a derived sidecar that is missing) -----------------------
@@ -160,10 +164,12 @@ pub proof fn lemma_kept_lines_step(all: Seq<Seq<u8>>, k: int, which: int)
 
 pub struct ContinuityStreamCache { pub dir: PathBuf }
 impl ContinuityStreamCache {
-    #[verifier::external_body] pub fn path_for(&self, id: &str) -> PathBuf { unimplemented!() }
-    #[verifier::external_body] pub fn messages_runs_path_for_v1(&self, id: &str) -> PathBuf { unimplemented!() }
-    #[verifier::external_body] pub fn compaction_checkpoints_path_for_v1(&self, id: &str) -> PathBuf { unimplemented!() }
-    #[verifier::external_body] pub fn compaction_checkpoints_index_path_for_v1(&self, id: &str) -> PathBuf { unimplemented!() }
+    // which file of the cache directory a path is: 0 the full sidecar, 1 messages+runs, 2 checkpoints, 3 the checkpoint index
+    pub uninterp spec fn file_of(id: Seq<char>, which: int) -> PathBuf;
+    #[verifier::external_body] pub fn path_for(&self, id: &str) -> (r: PathBuf) ensures r == Self::file_of(id@, 0) { unimplemented!() }
+    #[verifier::external_body] pub fn messages_runs_path_for_v1(&self, id: &str) -> (r: PathBuf) ensures r == Self::file_of(id@, 1) { unimplemented!() }
+    #[verifier::external_body] pub fn compaction_checkpoints_path_for_v1(&self, id: &str) -> (r: PathBuf) ensures r == Self::file_of(id@, 2) { unimplemented!() }
+    #[verifier::external_body] pub fn compaction_checkpoints_index_path_for_v1(&self, id: &str) -> (r: PathBuf) ensures r == Self::file_of(id@, 3) { unimplemented!() }
     #[verifier::external_body] pub fn messages_runs_seq_index_path_v1(&self, id: &str) -> PathBuf { unimplemented!() }
     #[verifier::external_body] pub fn messages_runs_message_index_path_v1(&self, id: &str) -> PathBuf { unimplemented!() }
     #[verifier::external_body] pub fn messages_runs_message_ordinal_index_path_v1(&self, id: &str) -> PathBuf { unimplemented!() }
@@ -252,6 +258,7 @@ impl ContinuityStreamCache {
     //@@ rewrite b"\n" ==>> nl_bytes()
     //@@ sig
         requires old(out).lines.len() == 0,
+            *full_sidecar_path == Self::file_of(continuity_id@, 0) && *comp_sidecar_path == Self::file_of(continuity_id@, 2),      // [ensure.a_lazy_rebuild_reads_this_threads_full_sidecar_and_writes_its_own_derived_sidecar]
         ensures ret is Ok ==> final(out).lines == kept_lines(raw_lines_of(*full_sidecar_path), 2),      // [rebuild_from_full_sidecar.checkpoint_sidecar_holds_exactly_the_checkpoint_lines_of_the_full_sidecar_in_order]
     //@@ loop 0
         invariant
@@ -277,6 +284,7 @@ impl ContinuityStreamCache {
     //@@ rewrite b"\n" ==>> nl_bytes()
     //@@ sig
         requires old(out).lines.len() == 0,
+            *full_sidecar_path == Self::file_of(continuity_id@, 0) && *mr_sidecar_path == Self::file_of(continuity_id@, 1),      // [ensure.a_lazy_rebuild_reads_this_threads_full_sidecar_and_writes_its_own_derived_sidecar]
         ensures ret is Ok ==> final(out).lines == kept_lines(raw_lines_of(*full_sidecar_path), 1),      // [rebuild_from_full_sidecar.messages_runs_sidecar_holds_exactly_the_message_and_run_ended_lines_of_the_full_sidecar_in_order]
     //@@ loop 0
         invariant
@@ -291,6 +299,28 @@ impl ContinuityStreamCache {
         proof { if reader.rest().len() > 0 { lemma_kept_lines_step(all, k, 1); assert(reader.rest()[0] == all[k]); assert(reader.rest().drop_first() =~= all.subrange(k + 1, all.len() as int)); } }
     //@@ afterloop 0
         proof { assert(raw_lines_of(*full_sidecar_path).subrange(0, raw_lines_of(*full_sidecar_path).len() as int) =~= raw_lines_of(*full_sidecar_path)); }
+    //@@ end
+
+    // when a lazy rebuild happens and what is answered: only this thread's own derived file is ever answered
+    //@@ fn crates/ripd/src/continuity_stream_cache.rs ContinuityStreamCache::ensure_messages_runs_sidecar_best_effort_v1
+    //@@ rewrite continuity_id, &full_path, ==>> continuity_id, Tracked(&mut w), &full_path,
+    //@@ sig
+        ensures ret matches Ok(Some(p)) ==> p == Self::file_of(continuity_id@, 1),      // [ensure.only_this_threads_messages_runs_sidecar_is_answered]
+    //@@ entry
+        let tracked mut w = WrittenLines { lines: Seq::empty() };
+    //@@ end
+
+    //@@ fn crates/ripd/src/continuity_stream_cache.rs ContinuityStreamCache::ensure_compaction_checkpoints_sidecar_best_effort_v1
+    //@@ rewrite continuity_id, &full_path, ==>> continuity_id, Tracked(&mut w), &full_path,
+    //@@ sig
+        ensures ret matches Ok(Some(p)) ==> p == Self::file_of(continuity_id@, 2),      // [ensure.only_this_threads_checkpoint_sidecar_is_answered]
+    //@@ entry
+        let tracked mut w = WrittenLines { lines: Seq::empty() };
+    //@@ end
+
+    //@@ fn crates/ripd/src/continuity_stream_cache.rs ContinuityStreamCache::ensure_compaction_checkpoints_index_best_effort_v1
+    //@@ sig
+        ensures ret matches Ok(Some(p)) ==> p == Self::file_of(continuity_id@, 3),      // [ensure.only_this_threads_checkpoint_index_is_answered]
     //@@ end
 }
 
